@@ -248,7 +248,7 @@ func CheckC14(opt C14Options) int {
 
 	nProj, k, fine := 70, 9, 10
 	if opt.Tier == "thorough" {
-		nProj, k, fine = 2500, 30, 25
+		nProj, k, fine = 900, 24, 25
 	}
 	type caseT struct {
 		proj    Project
